@@ -178,9 +178,9 @@ func (p *bProc) ask(qs []bQuery) []bAnswer {
 			vlib.Fatal("bundle child failed: %v %q", r.err, r.line)
 		}
 		return ans
-	case <-time.After(60 * time.Second):
+	case <-time.After(180 * time.Second):
 		p.cmd.Process.Kill()
-		vlib.Fatal("bundle child did not answer within 60 s")
+		vlib.Fatal("bundle child did not answer within 180 s")
 	}
 	return nil
 }
